@@ -67,6 +67,11 @@ def pair_menu(ref, typ, d):
     return menu
 
 
+def deeper_key(ref, t, d):
+    ch = [k for k in ref.key_types.get(ref.basetype(t), []) if k not in d]
+    return ch[0] if ch else None
+
+
 def sids(ref):
     """(string, forced type|None)"""
     out = []
@@ -173,6 +178,14 @@ def cases(ref, k):
                 q = "&".join(f"{kk}={vv}" for kk, vv in combo)
                 for s2, f2 in partners:
                     yield ("qq", s, forced, [q, s2, f2])
+        # keyword overlays whose value spells Sid syntax (a '?', a 'key=value' tail, a ':'): a value is a value, never re-read
+        ks = list(d)
+        for i, kk in enumerate(ks):
+            if ref.templates[t][i][1] is None:
+                nxt = ks[i + 1] if i + 1 < len(ks) else (deeper_key(ref, t, d) or "bogus")
+                for vv in ("who?", "x?%s=%s" % (nxt, d.get(nxt, "zz")), "x?%s=*" % ks[0], "a:b", "?"):
+                    yield ("kw", s, forced, {kk: vv})
+                    yield ("kv", s, forced, {kk: vv})
         # None overlays
         chain = list(d) + [kk for kk in ref.key_types.get(ref.basetype(t), []) if kk not in d][:1] + ["bogus"]
         for kk in chain:
